@@ -239,7 +239,10 @@ pub fn gen_cli_histories(out: &mut Out, rng: &mut Rng, n: usize) {
         };
         let mut line = format!("cli {kind} {slave_tok}");
         let mut tid: u16 = 0;
-        for _ in 0..rng.range(1, 7) {
+        // mostly short histories; every twentieth one is long (state that builds up over many
+        // operations: ids, buffers, latches)
+        let nops = if i % 20 == 7 { rng.range(12, 40) } else { rng.range(1, 7) };
+        for _ in 0..nops {
             match rng.below(12) {
                 0 => {
                     unit = rng.unit();
@@ -296,9 +299,10 @@ pub fn gen_srv_histories(out: &mut Out, rng: &mut Rng, n: usize) {
         let kind = if i % 2 == 0 { "tcp" } else { "rtu" };
         let mut data: Vec<u8> = vec![];
         let mut svc: Vec<Svc> = vec![];
+        // (every fourth connection: all requests under one and the same header)
+        let fixed = if rng.chance(1, 4) { Some((rng.unit(), rng.u16())) } else { None };
         for _ in 0..rng.range(0, 6) {
-            let unit = rng.unit();
-            let tid = rng.u16();
+            let (unit, tid) = fixed.unwrap_or_else(|| (rng.unit(), rng.u16()));
             match rng.below(10) {
                 0 => data.extend(rng.bytes_in(1, 20)),
                 1 if rng.bool() => {
